@@ -152,6 +152,52 @@ CHECKS = {
          'SimCF create/append decode rule and raw-memory record format are my reading of the firmware; only the fetch '
          'nibble is checked for table variables; notifications of refused create/start (other argument shapes) are not judged',
          'DESIGN.md §3 C05', 'E2'),
+ 'C11': ('fault_enumeration',
+         'exhaustive enumeration of crash points (every prefix of the cache file) and of cache-directory/checksum configurations on the real cache and connect code',
+         'Fetch level: for log and parameter tables with 0, 1, 3 and 40 entries (plain and extended) every prefix length of '
+         'the cache file the library itself wrote is put in place and TocCache.fetch must return None or a table equal '
+         'entry for entry; 8 kinds of unparsable entries (garbage, non-UTF-8, other JSON shapes, foreign __class__, '
+         'directory) and 39 neighbouring checksums. Connect level: a real Crazyflie connects to SimCF with the rw cache '
+         'file cut at every byte (1- and 3-entry tables; stride in quick) or at a stride plus both ends (40 entries): '
+         'connected exactly once with the device tables, the truncated file is downloaded and rewritten whole, a complete '
+         'file is used without any element request; 8 read-only/read-write directory combinations with a content hash of '
+         'the read-only tree; log/param checksum collision in 3 storing orders x 2 sessions.',
+         'crash model = prefix of the intended content (open/write/close, no rename); SimCF announces the checksums',
+         'DESIGN.md §3 C11', 'E3'),
+ 'C15': ('exploration',
+         'exhaustive enumeration of a stated finite grid of directions/poses against references written in the check',
+         'Complete over a stated finite grid: all V1 directions of a +-80 x +-55 degree grid (5 degree steps quick, 1 degree '
+         'thorough) including +-1e-9/1e-6/1e-3 rad, a V2 grid, a rotation x translation lattice (identity, quarter and '
+         'half turns, tiny and near-pi rotations, generic literals) with all ordered pose pairs and all triples of a fixed '
+         'sub-set, and every lattice combination of base-station pose, deck position, Crazyflie rotation and sensor for '
+         'the solver\'s vectorised projection (incl. zero rotation), plus IPPE on exact projections. Each is run on the '
+         'real code and compared with Rodrigues/4x4/atan2 references written in the check.',
+         'continuous domain: nothing off the grid is claimed; tolerances are float32-level (1e-5 rad, relative below 1 rad) '
+         'for angle paths and 1e-9 for double-precision laws with measured margins >= 10x in the evidence; IPPE true-pose '
+         'clause excludes edge-on and knife-edge decks',
+         'DESIGN.md §3 C15', 'enumeration'),
+ 'C16': ('exploration',
+         'exhaustive enumeration of a stated finite grid of misalignments/layouts/scale factors against 4x4-matrix references',
+         'Complete over a stated finite grid: 17 856 (thorough 97 776) generating misalignments below 30 degrees and 3 m, '
+         'alone and composed with half turns about X, Y, Z, x 12 reference layouts (1 or 3 x-axis points, 1/2/4 plane '
+         'points, exact or +-1 mm) x 3 constellations, plus large rotations for the rigid-motion clauses only; all grid '
+         'combinations of both scaling entry points over 4 (8) factors; the deck-diagonal constant. Real aligner and scaler '
+         'compared with 4x4-matrix and ray/plane references, with deep input snapshots.',
+         'continuous domain: only the grid is claimed; below 30 degrees read literally for optimiser-precision placement '
+         '(1e-4 m), flipped situations placed to 1 mm; scipy optimiser trusted as a black box',
+         'DESIGN.md §3 C16', 'enumeration'),
+ 'C18': ('model_checking',
+         'bounded exhaustive exploration of stream fragmentations, packet sequences and router/receiver interleavings on the real CPX code',
+         'Complete codec alphabet (4x4x7x2 headers x payload lengths 0-64 and boundary lengths, all 65 536 header byte pairs '
+         'against an independent reference); every stream of 1-4 packets up to 14 (quick) / 18 (thorough) bytes under all '
+         '2^(n-1) recv fragmentations through the real SocketTransport.readPacket, long frames under all single cuts and all '
+         'compositions of the leading bytes; all packet sequences of length <= 4/5 over three functions plus a bad-version '
+         'packet under every interleaving of CPXRouter.run iterations with a bounded number of receivePacket calls; all 256 '
+         'CRTP headers x payload 0-30 in both directions through TcpDriver and SerialDriver.',
+         'reference wire formats written in the check (little-endian host); run() bodies are executed synchronously and '
+         'interleaved at whole-call granularity; pyserial is absent so the serial driver runs against a fake serial.Serial; '
+         'packets arriving before a function\'s first receivePacket are not required to be delivered',
+         'DESIGN.md §3 C18', 'E2'),
 }
 
 ALL = ['C%02d' % i for i in range(1, 21)]
